@@ -21,6 +21,7 @@ type Violation struct {
 	Detail string `json:"detail"`
 	Cut    *int64 `json:"cut,omitempty"` // E2: the crash point that produced it (for a minimal replay job)
 	Mut    *Mut   `json:"mut,omitempty"` // C08: the alteration that produced it
+	Sched  []int  `json:"sched,omitempty"` // C11: the schedule (choice list) that produced it
 }
 
 // Hang describes a deadlock (or livelock) found by the scheduler.
